@@ -12,20 +12,21 @@ SidEnabled(c) == CASE c = "reuse" -> hiSent > 0 [] c = "lower" -> hiSent >= 3 []
 SidOf(c) == CASE c = "next" -> Nxt [] c = "skip" -> Nxt + 4 [] c = "even" -> Nxt + 1
               [] c = "reuse" -> hiSent [] c = "lower" -> hiSent - 2 [] OTHER -> 0
 B(x) == IF x THEN 1 ELSE 0
-NFaults(c, meth, ct, te, to, au, conn, bin, big, es) ==
-  B(c # "next") + B(meth # "POST") + B(ct # "grpc") + B(te # "trailers") + B(to # "none") + B(au # "one")
-  + B(conn) + B(bin # "none") + B(big # "no") + B(es)
+NFaults(g) ==
+  B(g.c # "next") + B(g.meth # "POST") + B(g.ct # "grpc") + B(g.te # "trailers") + B(g.to # "none") + B(g.au # "one")
+  + B(g.conn) + B(g.bin # "none") + B(g.big # "no") + B(g.es)
+\* the request shapes of this configuration (a constant: TLC evaluates it once)
+Shapes == {g \in [c : SidC, meth : MethV, ct : CtV, te : TeV, to : ToV, au : AuV, conn : BOOLEAN,
+                  bin : BinV, big : BigV, es : BOOLEAN] : NFaults(g) <= MaxFaults}
 Init == PInit /\ nev = 0 /\ nreq = 0 /\ lastSid = 0
 Tick == nev < MaxEvents /\ nev' = nev + 1
-ReqT(c, meth, ct, te, to, au, conn, bin, big, es) ==
-  /\ Tick /\ nreq < MaxReq /\ nreq' = nreq + 1 /\ SidEnabled(c)
-  /\ NFaults(c, meth, ct, te, to, au, conn, bin, big, es) <= MaxFaults
-  /\ lastSid' = SidOf(c)
-  /\ Req([sid |-> SidOf(c), meth |-> meth, ct |-> ct, te |-> te, to |-> to, au |-> au, conn |-> conn,
-          bin |-> bin, big |-> big, es |-> es])
+ReqT(g) ==
+  /\ Tick /\ nreq < MaxReq /\ nreq' = nreq + 1 /\ SidEnabled(g.c)
+  /\ lastSid' = SidOf(g.c)
+  /\ Req([sid |-> SidOf(g.c), meth |-> g.meth, ct |-> g.ct, te |-> g.te, to |-> g.to, au |-> g.au, conn |-> g.conn,
+          bin |-> g.bin, big |-> g.big, es |-> g.es])
 RstT(sid) == Tick /\ RstC(sid) /\ lastSid' = sid /\ UNCHANGED nreq
 FinT(sid) == Tick /\ Fin(sid) /\ lastSid' = sid /\ UNCHANGED nreq
-Next == \/ \E c \in SidC, meth \in MethV, ct \in CtV, te \in TeV, to \in ToV, au \in AuV, conn \in BOOLEAN,
-             bin \in BinV, big \in BigV, es \in BOOLEAN : ReqT(c, meth, ct, te, to, au, conn, bin, big, es)
-        \/ \E sid \in open : RstT(sid) \/ FinT(sid)
+Next == \/ \E g \in Shapes : ReqT(g)
+        \/ \E sid \in 1..(6 * MaxReq + 1) : RstT(sid) \/ FinT(sid)   \* (a constant range: TLC labels the actions)
 ====
